@@ -239,6 +239,7 @@ type Node struct {
 
 	mu         sync.Mutex
 	rev        int
+	epoch      int // revEpoch of the published config (default 1), see SetRevision
 	conns      map[*kvConn]struct{}
 	connCtr    int
 	cfgSubs    map[chan struct{}]struct{}
@@ -300,7 +301,7 @@ func New(o Options) *Node {
 		o.CollectionIDs = map[string]uint32{"_default._default": 0}
 	}
 	return &Node{
-		opt: o, rev: 1, done: make(chan struct{}),
+		opt: o, rev: 1, epoch: 1, done: make(chan struct{}),
 		conns: map[*kvConn]struct{}{}, cfgSubs: map[chan struct{}]struct{}{},
 		scripts: map[scriptKey][]Action{}, high: map[uint16]uint64{}, flog: map[uint16][]FailoverEntry{},
 		rollback: map[uint16]func(StreamReq) (uint64, bool){}, persisted: map[[2]int]persist{},
@@ -661,7 +662,7 @@ func (n *Node) KVKeys() []string {
 
 func (n *Node) cfgJSON() []byte {
 	n.mu.Lock()
-	rev := n.rev
+	rev, epoch := n.rev, n.epoch
 	vbmap := make([][]int, n.opt.NumVb)
 	for i := range vbmap {
 		if row, ok := n.replicaMap[uint16(i)]; ok {
@@ -696,7 +697,7 @@ func (n *Node) cfgJSON() []byte {
 		caps = append(caps, "collections")
 	}
 	cfg := map[string]any{
-		"rev": rev, "revEpoch": 1, "name": n.opt.Bucket, "nodeLocator": "vbucket", "uuid": n.opt.BucketUUID,
+		"rev": rev, "revEpoch": epoch, "name": n.opt.Bucket, "nodeLocator": "vbucket", "uuid": n.opt.BucketUUID,
 		"bucketCapabilities": caps,
 		"vBucketServerMap": map[string]any{"hashAlgorithm": "CRC", "numReplicas": n.opt.Replicas,
 			"serverList": servers, "vBucketMap": vbmap},
